@@ -1,5 +1,5 @@
 (* Props/C03.v -- property theorems for C03 only. *)
-From LV Require Import Base FS FSFacts LayerEnv LayerEnvFacts LayerShared LayerSharedGone LayerEnvFS LayerEnvFSFacts Determinism LayerEnvFSExact FSInv LayerEnvFSCompose LayerEnvReadback LayerEnvFSRead LayerEnvFSCycle LayerEnvFSProc.
+From LV Require Import Base FS FSFacts LayerEnv LayerEnvFacts LayerShared LayerSharedGone LayerEnvFS LayerEnvFSFacts Determinism LayerEnvFSExact FSInv LayerEnvFSCompose LayerEnvReadback LayerEnvFSRead LayerEnvFSCycle LayerEnvFSProc LayerEnvFSFull.
 From Coq Require Import Lia.
 From LVGen Require Import GenLayerEnv.
 
@@ -105,9 +105,10 @@ Theorem c03_write_to_layer_dir_exact :
 Proof. exact (write_to_layer_dir_exact beh_order writer_suffix). Qed.
 Print Assumptions c03_write_to_layer_dir_exact.
 
-(* PARTIAL: the composition of the per-process writes over all processes of an environment, and
-   reading per-process directories back, are decided on implementation snapshots by the verified
-   judgement layout_exact / frame_chk of Checks/C03Hold.v and by the correspondence. *)
+(* Outside the theorems (decided on implementation snapshots by the verified judgement
+   layout_exact / frame_chk of Checks/C03Hold.v and by the correspondence): file systems that break
+   the representation invariants (symlinks or unreadable directories inside the layer's env
+   directories, a process name equal to a launch file name). *)
 
 Example c03_nonvacuous :
   let d := dinsert Append [65; 46; 66] [1] (dinsert Override [255] [0; 10] (dinsert Delim [65; 46; 66] [58] delta_empty)) in
@@ -169,6 +170,46 @@ Theorem c03_proc_dir_exact :
 Proof. exact (write_proc_dir beh_order writer_suffix). Qed.
 Print Assumptions c03_proc_dir_exact.
 
+(* EVERY environment, per-process entries included: after write_to_layer_dir every path of the
+   file system is determined -- env and env.build as above; below env.launch the launch delta's
+   files, one directory per process with a non-empty delta holding exactly that delta's files,
+   env.launch itself present as soon as anything is below it (launch_spec); the rest unchanged.
+   Hypotheses beyond the representation invariants: process names are valid path components,
+   pairwise distinct, and differ from the launch delta's file names (a process called
+   "X.override" beside a launch entry X/override shares one path; the real call then fails with
+   ENOTDIR -- recorded as an observation in DESIGN.md). *)
+Theorem c03_write_to_layer_dir_full :
+  forall e dir s,
+    let L := dir ++ [n_env_launch] in
+    fs_inv s dir ->
+    files_ok beh_order writer_suffix (le_all e) -> files_ok beh_order writer_suffix (le_build e) ->
+    files_ok beh_order writer_suffix (le_launch e) ->
+    procs_ok beh_order writer_suffix (le_launch e) (le_process e) ->
+    root_ok s (dir ++ [n_env]) -> root_ok s (dir ++ [n_env_build]) -> root_ok s L ->
+    exists s', write_to_layer_dir beh_order writer_suffix e dir s = (s', Ok tt) /\ fs_inv s' dir /\
+      forall q,
+        pget q s' =
+        if is_prefix (dir ++ [n_env]) q then env_dir_spec beh_order writer_suffix (le_all e) (dir ++ [n_env]) q
+        else if is_prefix (dir ++ [n_env_build]) q then env_dir_spec beh_order writer_suffix (le_build e) (dir ++ [n_env_build]) q
+        else if is_prefix L q then launch_spec beh_order writer_suffix (le_launch e) (le_process e) L q
+        else pget q s.
+Proof. exact (write_to_layer_dir_full beh_order writer_suffix). Qed.
+Print Assumptions c03_write_to_layer_dir_full.
+
+(* ... and reads back: the three deltas and every non-empty per-process delta exactly as written
+   (an empty process delta has no representation on disk and applies as the identity), plus the
+   implicit layer paths *)
+Theorem c03_write_then_read_full :
+  forall e dir s,
+    fs_inv s dir -> env_ok_full writer_suffix e ->
+    root_ok s (dir ++ [n_env]) -> root_ok s (dir ++ [n_env_build]) -> root_ok s (dir ++ [n_env_launch]) ->
+    exists s', write_to_layer_dir beh_order writer_suffix e dir s = (s', Ok tt) /\ fs_inv s' dir /\
+               layer_written_full writer_suffix e dir s' /\
+               read_from_layer_dir reader_suffix reader_no_ext layer_path_specs path_list_separator reads_process dir s' =
+                 (s', Ok (read_result_full layer_path_specs path_list_separator e dir s')).
+Proof. exact (write_then_read_full writer_suffix reader_suffix reader_no_ext layer_path_specs path_list_separator reads_process gen_tables_inverse eq_refl). Qed.
+Print Assumptions c03_write_then_read_full.
+
 (* the hypotheses are satisfiable: a layer directory /l, an environment with entries in all three
    scopes (dotted and non-UTF-8 names), written and read back *)
 Definition ex_fs : fs := [([], Dir mode_dir_default); ([[108]], Dir mode_dir_default)].
@@ -211,6 +252,40 @@ Proof.
   - repeat split; intros k v I; cbn in I; intuition congruence.
   - cbn. repeat constructor; cbn; intuition discriminate.
   - cbn. repeat constructor.
+Qed.
+
+Definition ex_env_proc : layer_env :=
+  mkLE (le_all ex_env) (le_build ex_env) delta_empty
+       [([119; 101; 98], dinsert Override [80] [56; 48] delta_empty)] delta_empty delta_empty.   (* process "web": P=80 *)
+
+Lemma ex_env_proc_ok : env_ok_full writer_suffix ex_env_proc.
+Proof.
+  destruct ex_env_ok as (_ & OA & OB & _).
+  set (pd0 := dinsert Override [80] [56; 48] delta_empty).
+  assert (Wf : delta_wf pd0) by (apply dinsert_wf, delta_empty_wf).
+  assert (Nn : delta_names_nonempty pd0) by (repeat split; intros k v I; cbn in I; intuition congruence).
+  assert (Fo : files_ok beh_order writer_suffix pd0) by (split; cbn; repeat constructor; cbn; intuition discriminate).
+  split; [exact OA|]. split; [exact OB|]. split.
+  { split; [apply delta_empty_wf|]. split; [repeat split; intros k v []|]. split; [constructor|constructor]. }
+  split.
+  { split; [cbn; repeat constructor; cbn; intuition|].
+    intros pn pd [E|[]]. inversion E; subst pn pd. split; [reflexivity|]. split; [exact Fo|]. intros f []. }
+  split.
+  { intros pn pd [E|[]]. inversion E; subst pn pd. split; [exact Wf|exact Nn]. }
+  cbn. split; [intros ? ? []|exact I].
+Qed.
+
+(* env.launch does not exist before (empty launch delta): create_dir_all creates it for the process *)
+Example c03_proc_nonvacuous :
+  exists s', write_to_layer_dir beh_order writer_suffix ex_env_proc [[108]] ex_fs = (s', Ok tt) /\
+             layer_written_full writer_suffix ex_env_proc [[108]] s' /\
+             pget [[108]; n_env_launch] s' = Some (Dir mode_dir_default) /\
+             pget [[108]; n_env_launch; [119; 101; 98]; [80; 46; 111; 118; 101; 114; 114; 105; 100; 101]] s' =
+               Some (File mode_file_default (Raw [56; 48])).
+Proof.
+  destruct (c03_write_then_read_full ex_env_proc [[108]] ex_fs ex_fs_inv ex_env_proc_ok) as (s' & E & _ & W & _); try (left; reflexivity).
+  exists s'. split; [exact E|]. split; [exact W|].
+  vm_compute in E. inversion E; subst s'. split; reflexivity.
 Qed.
 
 Example c03_fs_nonvacuous :
